@@ -67,6 +67,7 @@ type c23Run struct {
 	clients, perCli int
 	failAt          map[int]string // Execute call number -> failure kind
 	seed            uint64
+	bigReqs         bool
 }
 
 func c23Do(rep *vfReport, rn c23Run, runIdx int) (ops, out []string, ok bool) {
@@ -152,10 +153,13 @@ func c23Do(rep *vfReport, rn c23Run, runIdx int) (ops, out []string, ok bool) {
 			client := &http.Client{Timeout: 120 * time.Second}
 			for i := 0; i < rn.perCli; i++ {
 				n := 1 + pr.Intn(3)
+				if rn.bigReqs && pr.Chance(12) {
+					n = 40 + pr.Intn(260) // a large request must stay together too
+				}
 				rq := &c23Req{client: cl, idx: i, wait: pr.Chance(40)}
 				var parts []string
 				for k := 0; k < n; k++ {
-					id := cl*100000 + i*10 + k
+					id := cl*10000000 + i*1000 + k
 					rq.stmts = append(rq.stmts, id)
 					parts = append(parts, fmt.Sprintf(`"INSERT INTO t(v) VALUES(%d)"`, id))
 				}
@@ -327,10 +331,10 @@ func c23Do(rep *vfReport, rn c23Run, runIdx int) (ops, out []string, ok bool) {
 }
 
 func TestVerifC23(t *testing.T) {
-	rep := vfNewReport("C23", "real http.Service with a scripted mock store: 2-4 concurrent clients x 6-14 queued requests of 1-3 uniquely numbered statements (40% with wait), queue capacity 4-32, batch size 1-6, timeout 3-15 ms, up to 3 injected Execute failures per service (ErrLeaderNotFound, ErrNotLeader with failing or succeeding forward, other error); non-trivial when at least two batches of different sizes were applied")
+	rep := vfNewReport("C23", "real http.Service with a scripted mock store: 2-4 concurrent clients x 6-14 queued requests of 1-3 uniquely numbered statements (40% with wait), queue capacity 4-32, batch size 1-6, timeout 3-15 ms, up to 3 injected Execute failures per service and one service with an outage of 5 consecutive failures (ErrLeaderNotFound, ErrNotLeader with failing or succeeding forward, other error); a third of the services also get requests of 40-300 statements; non-trivial when at least two batches of different sizes were applied")
 	defer rep.Write()
 	r := vfNewRng(23)
-	n := vfScale(8, 120)
+	n := vfScale(8, 600)
 	par := 8
 	kinds := []string{"leader-not-found", "not-leader-forward-fails", "not-leader-forward-ok", "other-error"}
 	var mu sync.Mutex
@@ -344,10 +348,18 @@ func TestVerifC23(t *testing.T) {
 		if i%4 == 0 {
 			nf = 0
 		}
+		rn.bigReqs = i%3 == 1
 		at := 1 + r.Intn(4)
+		longBurst := i == 1 || (vfThorough() && i%20 == 1)
+		if longBurst {
+			nf = 5 // one long outage: the same batch must be retried until it succeeds
+		}
 		for k := 0; k < nf; k++ {
 			rn.failAt[at] = r.Pick(kinds)
-			if r.Chance(60) {
+			if longBurst {
+				rn.failAt[at] = kinds[k%2] // never a forward that succeeds
+			}
+			if longBurst || r.Chance(60) {
 				at++ // burst
 			} else {
 				at += 2 + r.Intn(4)
